@@ -255,13 +255,15 @@ def twin_sources(key, owner, fname):
 def open_parity_entries():
     """(class key, method, param, field) of every OPEN C06 finding that names a parity-table entry"""
     out, seen = [], set()
-    for f in (VERIF / "findings" / "C06.json", VERIF / "known_findings.json"):
+    for f in (VERIF / "known_findings.json", VERIF / "findings" / "C06.json"):     # the merged file wins (it may say "fixed")
         if not f.exists():
             continue
         data = json.load(open(f))
         for x in (data["findings"] if isinstance(data, dict) else data):
-            if x.get("property") == "C06" and x.get("status") == "open" and x.get("parity_entry") and x["id"] not in seen:
-                seen.add(x["id"])
+            if x.get("property") != "C06" or x["id"] in seen:
+                continue
+            seen.add(x["id"])
+            if x.get("status") == "open" and x.get("parity_entry"):
                 e = x["parity_entry"]
                 out.append((e["class"], e["method"], e["param"], e["field"]))
     return out
